@@ -31,10 +31,50 @@ import time
 import common as C
 import gen as G
 
-THEOREMS = ['to_buffers_keys_preorder', 'lengths_recomputed_sufficient', 'from_buffers_type', 'buffers_roundtrip_partial',
-            'buffers_roundtrip_refuted', 'numpy_roundtrip', 'from_numpy_value', 'to_numpy_is_to_list_partial',
-            'to_numpy_size0_refuted', 'arrow_offsets_rebase_spec', 'arrow_offsets_compact_spec', 'bytemask_to_bitmap_spec',
-            'bitmap_padding_zero']
+THEOREMS = ['to_buffers_keys_preorder',
+            'lengths_recomputed_sufficient',
+            'from_buffers_type',
+            'buffers_roundtrip_partial',
+            'buffers_roundtrip_refuted',
+            'numpy_roundtrip',
+            'from_numpy_value',
+            'to_numpy_is_to_list_partial',
+            'to_numpy_size0_refuted',
+            'arrow_offsets_rebase_spec',
+            'arrow_offsets_compact_spec',
+            'bytemask_to_bitmap_spec',
+            'bitmap_padding_zero',
+            'buffers_roundtrip_partial2',
+            'buffers_roundtrip_fixed_partial',
+            'buffers_roundtrip_gen_partial',
+            'frag16_in_fragG',
+            'pinned_is_fixed_when_exact',
+            'buffers_roundtrip_exact_partial',
+            'pinned_is_fixed_when_safe',
+            'buffers_roundtrip_safe_partial',
+            'buffers_roundtrip_identity',
+            'from_buffers_skeleton',
+            'from_buffers_parameters',
+            'buffers_roundtrip_invalid_result_refuted',
+            'buffers_roundtrip_top_level_refuted',
+            'buffers_offsets_outside_content_refuted',
+            'buffers_offsets_negative_refuted',
+            'arrow_validity_bitmap_roundtrip',
+            'arrow_validity_bytemask_roundtrip',
+            'arrow_validity_bytemask_roundtrip_gen',
+            'arrow_bitmap_is_bitmasked_mask',
+            'arrow_offsets_window',
+            'arrow_sliced_offsets_value',
+            'arrow_sliced_content_exact',
+            'arrow_compact_offsets_tight',
+            'arrow_nullable_is_bytemasked',
+            'arrow_option_below_top_preserved',
+            'arrow_option_below_top_sliced',
+            'arrow_nullable_none',
+            'to_numpy_masked_roundtrip',
+            'to_numpy_strict_on_masked',
+            'to_numpy_is_to_list_partial2',
+            'from_numpy_to_numpy_value']
 DRIVERS = ('pydrv',)
 COQ_DIR = os.path.join(C.VERIF, 'c16', 'coq')
 COQ_LOGICAL = '-R %s/coq AwkV -R . AwkBuffers' % C.VERIF
